@@ -1,6 +1,7 @@
 package vc
 
 import (
+	"os"
 	"bytes"
 	"context"
 	"fmt"
@@ -64,7 +65,80 @@ func (x *Exec) buildQuery(pcs [][]*Term, goals []*Term, slice bool, getValues []
 		for _, t := range pcs[0] {
 			add(t)
 		}
-		body = append(body, Not(goals[0]))
+		// Skolemise universally quantified goals and instantiate the universally quantified
+		// assumptions at the skolem constants (a sound, generic instantiation aid).
+		g, sks := x.skolemize(goals[0])
+		{
+			var hyps []*Term
+			var collect func(t *Term)
+			collect = func(t *Term) {
+				switch {
+				case t.Op == "and":
+					for _, a := range t.Args {
+						collect(a)
+					}
+				case t.Op == "quant" && t.Q == "forall" && len(t.QVars) == 1:
+					hyps = append(hyps, t)
+				}
+			}
+			for _, t := range pcs[0] {
+				collect(t)
+			}
+			// antecedents of the (skolemised) goal are hypotheses as well
+			gg := g
+			for gg.Op == "=>" {
+				collect(gg.Args[0])
+				gg = gg.Args[1]
+			}
+			if len(hyps) > 0 {
+				// candidate instantiation terms: skolems and ground terms compared with something
+				cands := append([]*Term{}, sks...)
+				seenC := map[string]bool{}
+				for _, s := range sks {
+					seenC[s.String()] = true
+				}
+				var scan func(t *Term, depth int)
+				visited := map[*Term]bool{}
+				scan = func(t *Term, depth int) {
+					if visited[t] || depth > 40 {
+						return
+					}
+					visited[t] = true
+					switch t.Op {
+					case "bvslt", "bvsle", "bvsgt", "bvsge", "bvult", "bvule", "bvugt", "bvuge", "=":
+						for _, a := range t.Args {
+							if a.S.K == 'v' && !a.IsLit && len(a.String()) < 160 && isGroundTerm(a) && !seenC[a.String()] && len(cands) < 40 {
+								seenC[a.String()] = true
+								cands = append(cands, a)
+							}
+						}
+					}
+					for _, a := range t.Args {
+						scan(a, depth+1)
+					}
+				}
+				scan(g, 0)
+				for _, h := range hyps {
+					scan(h, 0)
+				}
+				for i := len(pcs[0]) - 1; i >= 0 && i >= len(pcs[0])-60; i-- {
+					if pcs[0][i].Op != "quant" {
+						scan(pcs[0][i], 0)
+					}
+				}
+				n := 0
+				for _, h := range hyps {
+					v := h.QVars[0]
+					for _, c := range cands {
+						if c.S.Eq(v.S) && n < 400 {
+							add(Subst(h.Args[0], map[string]*Term{v.Name: c}))
+							n++
+						}
+					}
+				}
+			}
+		}
+		body = append(body, Not(g))
 	} else {
 		// common prefix as assumptions, rest inside the disjunction
 		minLen := len(pcs[0])
@@ -185,6 +259,50 @@ func (x *Exec) buildQuery(pcs [][]*Term, goals []*Term, slice bool, getValues []
 		sb.WriteString("))\n")
 	}
 	return sb.String()
+}
+
+// isGroundTerm: no bound variable (bound variables carry the markers !b !q !wf !eq in their names).
+func isGroundTerm(t *Term) bool {
+	syms := map[string]bool{}
+	t.FreeConsts(syms)
+	for s := range syms {
+		if strings.Contains(s, "!b") || strings.Contains(s, "!q") || strings.Contains(s, "!wf") || strings.Contains(s, "!eq") {
+			return false
+		}
+	}
+	return true
+}
+
+// skolemize strips universal quantifiers in positive positions of a goal (top level, under
+// conjunctions and in consequents of implications), replacing bound variables by fresh constants.
+func (x *Exec) skolemize(g *Term) (*Term, []*Term) {
+	switch {
+	case g.Op == "quant" && g.Q == "forall":
+		m := map[string]*Term{}
+		var sks []*Term
+		for _, v := range g.QVars {
+			sk := x.c.Fresh("sk_"+strings.SplitN(v.Name, "!", 2)[0], v.S)
+			m[v.Name] = sk
+			sks = append(sks, sk)
+		}
+		b, more := x.skolemize(Subst(g.Args[0], m))
+		return b, append(sks, more...)
+	case g.Op == "and" || g.Op == "or":
+		var parts, sks []*Term
+		for _, a := range g.Args {
+			p, s := x.skolemize(a)
+			parts = append(parts, p)
+			sks = append(sks, s...)
+		}
+		if g.Op == "or" {
+			return Or(parts...), sks
+		}
+		return And(parts...), sks
+	case g.Op == "=>":
+		c, sks := x.skolemize(g.Args[1])
+		return Implies(g.Args[0], c), sks
+	}
+	return g, nil
 }
 
 func pcTerms(p *pcNode) []*Term {
@@ -319,6 +437,10 @@ func Discharge(fr *FuncResult, opts DischargeOpts) []OblResult {
 			defer wg.Done()
 			defer func() { <-sem }()
 			r := x.solveJob(j.pcs, j.goals, opts)
+			if os.Getenv("VCHECK_VERBOSE") != "" && r.Verdict != VUnsat {
+				fmt.Fprintf(os.Stderr, "  [instance %d of %s: %s by %s in %.1fs]\n", j.first, fr.Obligations[j.oi].Name(), r.Verdict, r.Solver, r.Dur.Seconds())
+				os.WriteFile(fmt.Sprintf("/tmp/vcheck_inst_%d.smt2", j.first), []byte(r.Raw), 0o644)
+			}
 			mu.Lock()
 			defer mu.Unlock()
 			cur := &results[j.oi]
